@@ -427,7 +427,24 @@ def orc_c10(ctx, op, req, impl, model, spec):
     return None
 
 
+def orc_macrel(pid, impl):
+    """a macro-built value against the run-time parse of the same literal (fixed literal list compiled into the harness)"""
+    if not impl.startswith("ok ") or impl in ("ok parsefail",):
+        return None
+    d = dict(kv.split("=", 1) for kv in impl[3:].split(" "))
+    if pid == "C11" and (d.get("m") != "111" or d.get("lim", "11") != "11"):
+        return "matches() on a macro-built value differs from matches() on the parsed value of the same literal: %s" % impl
+    if pid == "C12" and (d["eq"] != "1" or d["cmp"] != "eq" or d["he"] != "1" or d.get("lieq", "1") != "1" or d.get("licmp", "eq") != "eq"
+                         or d.get("lihe", "1") != "1"):
+        return "a macro-built value and the parsed value of the same literal (equal text: %s) are not equal / Equal / equally hashed: %s" % (d["se"], impl)
+    if pid == "C13" and d.get("ideq") != "1":
+        return "locale!(..) has another id than the LanguageIdentifier of the same literal: %s" % impl
+    return None
+
+
 def orc_c11(ctx, op, req, impl, model, spec):
+    if op == "macrel":
+        return orc_macrel("C11", impl)
     return orc_spec_equal(ctx, op, req, impl, model, spec)
 
 
@@ -461,6 +478,8 @@ def orc_c12(ctx, op, req, impl, model, spec):
         return None
     if op == "subeq":
         return orc_subeq(ctx, op, req, impl, model, spec)
+    if op == "macrel":
+        return orc_macrel("C12", impl)
     if op == "route":
         if impl != "ok eq=1 cmp=eq he=1 se=1":
             return "the same value reached along a second route through the safe API (route %s) differs: %s" % (req.split(" ")[2], impl)
@@ -479,6 +498,8 @@ def orc_c12(ctx, op, req, impl, model, spec):
 
 
 def orc_c13(ctx, op, req, impl, model, spec):
+    if op == "macrel":
+        return orc_macrel("C13", impl)
     if op == "convx" and impl.startswith("ok"):
         # the same conversions on an identifier whose variant list is present but empty (from_raw_parts_unchecked)
         if get_kv(impl[3:], "ideq") != "1" or get_kv(impl[3:], "back") != "1":
@@ -653,6 +674,41 @@ def orc_c18(ctx, op, req, impl, model, spec):
     return orc_spec_equal(ctx, op, req, impl, model, spec)
 
 
+def norm_rust_tokens(t):
+    t = re.sub(r"//[^\n]*", "", t)
+    t = re.sub(r"\s+", "", t)
+    return t.replace(",]", "]").replace(",)", ")")
+
+
+def generators_check():
+    """C18, "programs" part of the quantifier: the repository's two generator binaries are re-run on the bundled CLDR data and
+    their output is compared, token for token, with the checked-in tables.  Returns a list of problems (dicts)."""
+    crate = os.path.join(R.REPO, "unic-langid-impl")
+    target = os.path.join(R.BUILD, "cargo-gen" if R.REPO == "/repo" else "cargo-gen-rehearsal")
+    r = R.sh(["cargo", "build", "--release", "--offline", "--features", "binary", "--bins"], cwd=crate,
+             env=dict(R.ENV, CARGO_TARGET_DIR=target))
+    if r.returncode != 0:
+        return [{"kind": "generator", "what": "the generator binaries do not build (--features binary)", "detail": r.stdout[-1500:]}]
+    probs = []
+    for exe, rel in (("generate_likelysubtags", "src/likelysubtags/tables.rs"), ("generate_layout", "src/layout_table.rs")):
+        try:
+            g = subprocess.run([os.path.join(target, "release", exe)], cwd=crate, stdout=subprocess.PIPE, stderr=subprocess.PIPE, text=True,
+                               timeout=300)
+        except subprocess.TimeoutExpired:
+            probs.append({"kind": "generator", "what": "%s does not terminate" % exe})
+            continue
+        if g.returncode != 0:
+            probs.append({"kind": "generator", "what": "%s fails (exit status %d)" % (exe, g.returncode), "detail": g.stderr[-800:]})
+            continue
+        a, b_ = norm_rust_tokens(g.stdout), norm_rust_tokens(open(os.path.join(crate, rel)).read())
+        if a != b_:
+            i = next((i for i in range(min(len(a), len(b_))) if a[i] != b_[i]), min(len(a), len(b_)))
+            probs.append({"kind": "generator", "what": "the output of %s differs from the checked-in %s" % (exe, rel),
+                          "replay_cmd": "cd %s && cargo run --offline --features binary --bin %s | diff -w - %s" % (crate, exe, rel),
+                          "generator_says": a[max(0, i - 120):i + 120], "checked_in": b_[max(0, i - 120):i + 120]})
+    return probs
+
+
 # ---- C16 ----
 
 def proj_c16(op, r):
@@ -806,9 +862,11 @@ PROPS = {
                 design_ref="4/C08"),
     "C09": Prop("C09", [("pairs", None)], {"pair", "extpair", "lipair"}, proj_pair, orc_c09, design_ref="4/C09"),
     "C10": Prop("C10", [("hist", None)], {"hist"}, proj_c10, orc_c10, design_ref="4/C10"),
-    "C11": Prop("C11", [("match", None)], {"match", "locmatch", "langmatch", "matchx", "locmatchx"}, proj_full, orc_c11, design_ref="4/C11"),
-    "C12": Prop("C12", [("rel", None), ("glue_misc", None)], {"rel", "eqstr", "subeq", "route"}, proj_full, orc_c12, design_ref="4/C12"),
-    "C13": Prop("C13", S(["tokens"], "conv") + S(["wf", "near", "raw"], "conv,convx"), {"conv", "convx"}, proj_c13, orc_c13,
+    "C11": Prop("C11", [("match", None), ("macvals", None)], {"match", "locmatch", "langmatch", "matchx", "locmatchx", "matchr", "macrel"},
+                proj_full, orc_c11, design_ref="4/C11"),
+    "C12": Prop("C12", [("rel", None), ("glue_misc", None), ("macvals", None)], {"rel", "eqstr", "subeq", "route", "macrel"}, proj_full, orc_c12,
+                design_ref="4/C12"),
+    "C13": Prop("C13", S(["tokens"], "conv") + S(["wf", "near", "raw"], "conv,convx") + [("macvals", None)], {"conv", "convx", "macrel"}, proj_c13, orc_c13,
                 design_ref="4/C13"),
     "C14": Prop("C14", [("layoutnames", None)] + S(["triples"], "dir,dirv"), {"dir", "locdir", "dirv"}, proj_full, orc_c14, design_ref="4/C14",
                 configs=[("likely", ALL_FEATURES), ("nolikely", ("macros", "serde"))]),
@@ -1141,6 +1199,14 @@ def check(pid, tier, seed):
 
     # ---- verdict
     violations = []
+    if pid == "C18":
+        with R.Lock():
+            gp = generators_check()
+        for g in gp:
+            g.update({"seed": seed, "tier": tier, "shown": g["what"], "why": "C18 quantifies over the generator programs as well: "
+                      "their output on the bundled CLDR data must be the bundled tables"})
+            violations.append(g)
+        dist["generators/rerun/" + ("differs" if gp else "identical")] += 2
 
     def requery(lines, exe):
         if lines and lines[0].startswith("mac ") and exe != R.DRIVER:
